@@ -83,6 +83,8 @@ def cases(draw, tier="quick"):
         dim = None
     if func in ("first", "last"):
         dim = None  # native first/last take no dim argument
+    if gkind == "bins1d" and dim is not None and dim != "..." and not all(d in dim for d in allg):
+        dim = None  # binning while reducing only over other dims: see known finding R36 (AssertionError)
     dataset = draw(st.booleans())
     case = {
         "dims": dims, "sizes": sizes, "arr": {"dt": dt, "sh": [sizes[d] for d in dims], "v": vals}, "func": func,
